@@ -131,6 +131,127 @@ class Runner:
                 else:
                     self.fail = (v.details.get("case", {"note": "custom check"}), v)
 
+    # ------------------------------------------------------------ coverage-guided campaign (atheris child)
+    def _bucket_of(self, raw):
+        """Bucket of the violation that `raw` triggers through decode+run (outside the fuzzer), or None."""
+        case = self.check.decode(bytes(raw))
+        if case is None:
+            return None, None, None
+        case = norm(case)
+        try:
+            self.check.run(case, Recorder())
+        except Skip:
+            return None, None, None
+        except Violation as v:
+            return v.bucket, case, v
+        except HarnessError:
+            return None, None, None
+        except Exception as e:
+            if in_library(e):
+                v = Violation("exception/%s@%s" % (type(e).__name__, where(e)), "unexpected %s from library: %s" % (type(e).__name__, str(e)[:300]))
+                return v.bucket, case, v
+        return None, None, None
+
+    def _ddmin(self, raw, bucket, budget):
+        """Delta-debugging over the fuzzer's bytes, keeping the violation bucket."""
+        t0 = time.time()
+        raw = bytes(raw)
+        n = 2
+        while len(raw) >= 2 and time.time() - t0 < budget:
+            chunk = max(1, len(raw) // n)
+            reduced = False
+            for i in range(0, len(raw), chunk):
+                cand = raw[:i] + raw[i + chunk:]
+                if cand and self._bucket_of(cand)[0] == bucket:
+                    raw, n, reduced = cand, max(n - 1, 2), True
+                    break
+                if time.time() - t0 > budget:
+                    break
+            if not reduced:
+                if chunk == 1:
+                    break
+                n = min(len(raw), n * 2)
+        # canonicalise bytes towards zero where the bucket survives
+        b = bytearray(raw)
+        for i in range(1, len(b)):
+            if time.time() - t0 > budget:
+                break
+            if b[i]:
+                keep = b[i]
+                b[i] = 0
+                if self._bucket_of(bytes(b))[0] != bucket:
+                    b[i] = keep
+        return bytes(b)
+
+    def run_fuzz(self, outpath):
+        import shutil
+        import subprocess
+        import tempfile
+        n_total = self.check.examples[self.tier]
+        runs = max(1, n_total // self.nshards)
+        sd = derive_seed(self.seed, self.pid, self.check.name, self.shard)
+        seeded = (self.shard % 2 == 1) and self.check.corpus is not None
+        work = tempfile.mkdtemp(prefix="fuzz-%s-%d-" % (self.check.name, self.shard), dir=os.path.dirname(os.path.abspath(outpath)))
+        try:
+            corpus = os.path.join(work, "corpus")
+            os.makedirs(corpus)
+            nseed = 0
+            if seeded:
+                for i, blob in enumerate(self.check.corpus()):
+                    with open(os.path.join(corpus, "seed-%04d" % i), "wb") as f:
+                        f.write(blob)
+                    nseed += 1
+            childout = os.path.join(work, "child.json")
+            cmd = [sys.executable, "-m", "pcdverif.fuzzchild", "--prop", self.pid, "--check", self.check.name, "--runs", str(runs),
+                   "--seed", str(sd), "--corpus", corpus, "--out", childout]
+            p = subprocess.run(cmd, stdout=subprocess.PIPE, stderr=subprocess.STDOUT, cwd=VERIF)
+            log = p.stdout.decode(errors="replace")
+            if not os.path.exists(childout):
+                raise HarnessError("fuzz child exited %d without a result:\n%s" % (p.returncode, log[-3000:]))
+            with open(childout) as f:
+                res = json.load(f)
+            r = res["rec"]
+            self.rec.evaluations += r["evaluations"]
+            for k, v in r["events"].items():
+                self.rec.event(k, v)
+            self.rec.nontrivial.update(r["nontrivial"])
+            self.rec.nontrivial_cases += r["nontrivial_cases"]
+            for smp in r["samples"]:
+                if len(self.rec.samples) < self.rec.MAX_SAMPLES:
+                    self.rec.samples.append(smp)
+            for k, v in r["excluded_known"].items():
+                self.rec.excluded_known[k] = self.rec.excluded_known.get(k, 0) + v
+            self.rec.skipped += r["skipped"]
+            for k, v in r["notes"].items():
+                self.rec.note(k, v)
+            # libFuzzer's own statistics: last "cov: N ft: M corp: K" line
+            import re
+            m = None
+            for m in re.finditer(r"cov: (\d+) ft: (\d+) corp: (\d+)", log):
+                pass
+            mode = "seeded" if seeded else "empty"
+            self.rec.event("fuzz:campaign:%s-corpus" % mode)
+            self.rec.event("fuzz:executions", res.get("execs", 0))
+            if m:
+                self.rec.note("fuzz_%s_shard%d" % (mode, self.shard), {"cov_edges": int(m.group(1)), "features": int(m.group(2)), "corpus": int(m.group(3)),
+                                                                      "seed_inputs": nseed, "execs": res.get("execs", 0)})
+            if res["status"] == "harness_error":
+                raise HarnessError("fuzz child: %s" % res.get("error"))
+            if res["status"] == "violation":
+                raw = bytes.fromhex(res["raw"])
+                bucket, case, v = self._bucket_of(raw)
+                if bucket is None:
+                    # does not reproduce outside the instrumented child: inconclusive, never an alarm
+                    self.rec.event("fuzz:unreproduced:" + res["violation"]["bucket"][:80])
+                    return
+                small = self._ddmin(raw, bucket, self.shrink_budget)
+                b2, case2, v2 = self._bucket_of(small)
+                if b2 == bucket:
+                    case, v = case2, v2
+                self.fail = (case, v)
+        finally:
+            shutil.rmtree(work, ignore_errors=True)
+
     def confirm(self):
         """Re-run the minimal failing case outside Hypothesis."""
         if self.fail is None or self.check.run is None:
@@ -189,6 +310,8 @@ def main(argv=None):
             r.run_hyp()
         elif chk.kind == "enum":
             r.run_enum()
+        elif chk.kind == "fuzz":
+            r.run_fuzz(a.out)
         else:
             r.run_custom()
         res["rec"] = r.rec.dump()
